@@ -87,6 +87,17 @@ IsHtmlEl(d, i) == NsOf(d, i) = XHTML
 NameKey(d, s) == IF d.xml THEN s ELSE Lower(s)
 IsIframe(d, i) == IsEl(d, i) /\ NameKey(d, d.name[i]) = <<105,102,114,97,109,101>> /\ IsHtmlEl(d, i)
 
+\* un-namespaced attribute nm (already lower-cased for HTML by the caller via NameKey) as a set of
+\* values: empty when absent.  Generators never create two keys that fold to the same name.
+AttrValSet(d, i, nm) ==
+    {d.attrs[i][n].v : n \in {m \in 1..Len(d.attrs[i]) : d.attrs[i][m].ns = <<>> /\ NameKey(d, d.attrs[i][m].k) = nm}}
+HasAttr(d, i, nm) == AttrValSet(d, i, nm) # {}
+AttrVal(d, i, nm) == CHOOSE v \in AttrValSet(d, i, nm) : TRUE     \* only when HasAttr
+\* HTML attribute names are matched case-insensitively whatever the document type (the library
+\* lower-cases the key) in the HTML-state pseudo-classes: lookup by lower-cased key
+AttrValSetCI(d, i, nm) ==
+    {d.attrs[i][n].v : n \in {m \in 1..Len(d.attrs[i]) : Lower(d.attrs[i][m].k) = nm}}
+
 \* character data that counts as text: "t" nodes only
 IsText(d, i) == d.kind[i] = "t"
 =============================================================================
